@@ -24,6 +24,7 @@ RULE = ('every non-mutator in the function table x typed argument templates (lis
 RULE += ' Host containers include proper subclasses of list and dict and a defaultdict (whose own index read inserts: not judged).'
 RULE += " One more workload: the repository's own test-suite, run in a worker process against the sandbox copy with this check's monitors installed (the tests' assertions are not the oracle, the monitors are)."
 RULE += " Coverage-guided programs over the host containers: one atheris/libFuzzer process per worker (5 s quick, 100 s thorough) runs this check's own judgement; programs on which a violation was recorded there are judged again by the worker."
+RULE += " Host containers are also presented as the value of a nested call that returns a reference to an existing object (get, method/pipe get, max/min of a list of lists, a selecting reduce). Three in ten call/pipe programs run against the function table as the repository built it (monitor wrappers taken out for that call: code that recognises its own builtins by identity behaves differently under wrappers) and are judged end to end only."
 ASSUMPTIONS = ['mutators = push, pop, insert, remove, __setitem__, __setitem_with_op__, __delitem__ (index assignment, compound index assignment, del); everything else in the table is a non-mutator',
                'a window inside which a mutator or a host callback ran is excluded from the judgement (counted); the workload keeps those below 20 % of windows',
                'fingerprint = container identity + ordered element fingerprints (dict: ordered key/value pairs); scalars by type and repr']
@@ -51,6 +52,7 @@ def host(with_big=True):
         'lstr': ['1', '22', '333'], 'mixed': [D(1), 'a', None, [D(2)]],
         # containers that overlap with the ones above (same keys, equal elements): builtins that combine two arguments meet common structure
         'dn2': {'x': [D(7)], 'y': {'z': [D(8)], 'w': D(9)}, 'q': D(1)}, 'd2': {'a': D(5), 'c': D(6)}, 'll2': [[D(1), D(2)], [D(9)]],
+        'dl': {'u': [D(3), D(1), D(2)], 'v': ['b', 'c', 'a'], 'w': {'b': D(2), 'a': D(1)}},
         'hl': HostList([D(3), D(1), D(2), D(5)]), 'hls': HostList(['b', 'a']), 'hd': HostDict({'b': D(2), 'a': D(1)}), 'nhl': [HostList([D(2), D(1)]), HostList([D(9), D(8), D(7)])],
     }
 
@@ -58,6 +60,10 @@ def host(with_big=True):
 C_LIST = ['hl', 'hls', 'nhl', 'nhl[1]', 'l', 'ls', 'll', 'ld', 'lt', 'e', 'al', 'mixed', 'lstr', 'dbig["log"]', 'dn["x"]', 'll[0]', 'items(d)', 'keys(dn)', '[l, l]', 'll2']
 C_DICT = ['hd', 'd', 'dn', 'de', 'dd', 'dbig', 'dn["y"]', 'ld[0]', '{"q": l}', 'dn2', 'd2', 'dn2["y"]', 'dn', 'dn2']
 C_STR = ['s', '"a,b,c"', 'sep', 'ls[0]', '""']
+# the same host containers presented as the value of a nested call (get, method/pipe get, max/min of a list of lists, a selecting reduce): the
+# callee receives a reference to an existing object although its argument node is a call
+C_LIST += ['get(dl, "u")', 'dl.get("u")', '(dl | get("v"))', 'get(dl, "v", [])', 'max(ll)', 'min(nhl)', 'reduce(ll, (a, b) => b)', 'reduce(nhl, (a, b) => a)', 'get(dd, "a")', 'get(dn, "x")', 'max(nhl)']
+C_DICT += ['get(dl, "w")', 'dl.get("w")', 'get(dn, "y")', 'reduce(ld, (a, b) => a)']
 C_ANY = C_LIST + C_DICT + C_STR + ['n', 'z', 'tr', 'no', 't', '1.5']
 FN1 = ['(v => v)', '(v => str(v))', '(v => len(str(v)))', 'str', 'len', '(v => [v])', '(v => v == v)', '(v => 0 - len(str(v)))']
 FN2 = ['((a, b) => a)', '((a, b) => b)', '((k, v) => k)', '((a, b) => [a, b])', '((k, v) => str(v))', 'max']
@@ -152,6 +158,7 @@ def setup(ctx):
     for n in list(F):
         F[n] = W.mut(n, F[n]) if n in MUTATORS else W.nonmut(n, F[n])
     ctx.F = F
+    ctx.wrapped = dict(F)
 
 
 def cases(ctx):
@@ -247,7 +254,8 @@ def run_case(case, ctx):
         ctx.count('windows_judged_during_the_repository_tests', W.judged - j0)
         W.taint = []
         return
-    r = random.Random(case[-2] if case[0] in ('call', 'callx') else case[1])
+    seed = case[-2] if case[0] in ('call', 'callx') else case[1]
+    r = random.Random(seed)
     W = ctx.W
     W.case = case
     W.taint = []
@@ -277,11 +285,24 @@ def run_case(case, ctx):
             src = r.choice(C_LIST + C_DICT + C_STR)
             for _ in range(r.randint(2, 4)):
                 src = '%s | %s' % (src, r.choice(STAGES))
+        # three in ten call/pipe programs run against the function table AS THE REPOSITORY BUILT IT (wrappers taken out for the call): code that
+        # recognises its own builtins by identity (`f is _sorted`) behaves differently under wrappers; those runs are judged end to end only
+        unwrapped = case[0] in ('call', 'pipe') and seed % 10 < 3 and not any(m in src for m in MUTATORS)
+        if unwrapped:
+            ctx.F.clear()
+            ctx.F.update(ctx.raw)
+            ctx.count('programs_run_against_the_unwrapped_function_table(end-to-end judgement only)')
         try:
             ctx.P.eval(src, names, None, 200000)
             ctx.count('evals_returning')
         except Exception as e:
             ctx.cov('exception_classes', type(e).__name__)
+        finally:
+            if unwrapped:
+                ctx.F.clear()
+                ctx.F.update(ctx.wrapped)
+                # an index read of the host defaultdict inserts by the host's own code (see the wrapper of __getitem__): not judged here either
+                W.self_mutating.add(id(names['dd']))
     ctx.count('cases_run')
     statement_forms = case[0] == 'callx' and case[-1] == 'fuzz' and re.search(r'(?<![=!<>])=(?![=>])|\bdel\b', src) is not None
     if statement_forms:
